@@ -343,3 +343,74 @@ UNITS.append(Unit(
                 'the context keeps its sheet, and a stored cell still yields its value', lambda *a: True, _unstored_ens)],
     call=_unstored_call(False), native_call=_unstored_call(True),
     cross_key=lambda v: (repr(v['res']), repr(v['again']), v['cells'], v['sheet']) if isinstance(v, dict) else repr(v)))
+
+
+# ---- P7: what is written as a reference leaves the scanner typed as a reference (the pass after the scan loop that types operands) ---------
+def _typing_call(it, fn, text):
+    import ast as pyast
+    from pyvc.interp import func_ast, Env
+    from xlcalculator import tokenizer
+    f = tokenizer.ExcelParser.getTokens
+    node = func_ast(f)
+    # the pass that types operands: the top-level `while tokens2.moveNext()` loop that assigns token subtypes (anchored by content)
+    loops = [n for n in node.body if isinstance(n, pyast.While) and pyast.unparse(n.test).replace(' ', '') == 'tokens2.moveNext()'
+             and 'TOK_SUBTYPE_MATH' in pyast.unparse(n)]
+    if len(loops) != 1:
+        from pyvc.sym import Unsupported
+        raise Unsupported('the operand-typing pass of getTokens is no longer a `while tokens2.moveNext()` loop: the contract does not apply')
+    loop = loops[0]
+    tokens2 = tokenizer.f_tokens()
+    cur = tokenizer.f_token(text, 'operand', '')
+    tokens2.items = [cur]
+    env = Env({'self': tokenizer.ExcelParser(), 'tokens2': tokens2}, {}, f.__globals__, func=f)
+    env.argnames = ['self']
+    state = dict(env.loc)
+    for st in node.body:
+        if st is loop:
+            break
+        if isinstance(st, pyast.FunctionDef) or (isinstance(st, pyast.Assign) and isinstance(st.value, (pyast.Dict, pyast.Tuple, pyast.List, pyast.Set, pyast.Constant, pyast.Attribute))):
+            try:
+                it.stmt(st, env)
+            except Exception:      # noqa
+                pass
+    env.loc.update(state)
+    it.interpreted.add('xlcalculator.tokenizer:ExcelParser.getTokens(operand typing pass)')
+    it.s_While(loop, env)
+    return cur.tsubtype
+
+
+def _typing_native(fn, text):
+    """natively the pass cannot be entered in isolation: the whole tokenizer runs on the formula that writes `text` as a reference (the sheet
+    part in quotes); a text the scanner does not hand to the pass as ONE operand is not reachable"""
+    from pyvc.engine import NotReachable
+    from xlcalculator import tokenizer
+    if '!' in text:
+        sheet, rest = text.rsplit('!', 1)
+        formula = "'" + sheet.replace("'", "''") + "'!" + rest
+    else:
+        formula = text
+    try:
+        toks = tokenizer.ExcelParser().getTokens(formula).items
+    except Exception as ex:      # noqa
+        raise NotReachable(f'the scanner fails on {formula!r}: {type(ex).__name__}')
+    if len(toks) != 1 or toks[0].ttype != 'operand' or toks[0].tvalue != text:
+        raise NotReachable(f'{formula!r} does not reach the typing pass as the single operand {text!r}')
+    return toks[0].tsubtype
+
+
+def _typing_ens(text, out):
+    if out.kind != 'ret':
+        return False
+    t = lift(text).t if is_sym(text) else None
+    has = (lambda c: Sym(z3.Contains(t, z3.StringVal(c)), 'bool')) if t is not None else (lambda c: c in text)
+    ref_marked = Or(has('!'), has('$'), has(':'))
+    return Implies(ref_marked, out.value == 'range')
+
+
+UNITS.append(Unit(
+    id='C03/tokenizer.getTokens/operand_typing', target='xlcalculator.tokenizer:ExcelParser.getTokens',
+    inputs=[('text', Prim('str', domain=['Sheet1!A1', '2023!B2', '1st Quarter!$C$3', '$A$1', 'A1:B2', '2:2', '2024 Plan!A1:B2', 'Data!A1', "It's!D4"]))],
+    requires=lambda text: S.length(text) > 0,
+    cases=[Case('an operand whose text carries a mark of a reference - the "!" after a sheet name (whatever the sheet is called: a title may start with a '
+                'digit), a "$", the ":" of a range - leaves the scanner typed as a reference, never as a number or a logical value', lambda text: True, _typing_ens)],
+    call=_typing_call, native_call=_typing_native))
